@@ -18,8 +18,8 @@ from ..minimise import list_candidates
 ID = "C14"
 LEVEL = "exploration"
 TIERS = {
-    "quick": {"runs": 12000, "wall_cap": 120, "timeout": 60, "dups": 16},
-    "thorough": {"runs": 300000, "wall_cap": 1700, "timeout": 60, "dups": 64},
+    "quick": {"runs": 12000, "wall_cap": 120, "timeout": 180, "dups": 16},
+    "thorough": {"runs": 300000, "wall_cap": 1700, "timeout": 180, "dups": 64},
 }
 RULE = ("Each run is a history of 1-4 files in one process (new content at a fresh or an already used path, or a second read of a file already on the disk; "
         "4% of runs start with a file larger than the 8 KiB I/O buffer). Per file: a simulated writer lays a seeded sequence (N 1-300) out on SimFS (optional '>' header, line length 1-80 / ragged / "
